@@ -294,6 +294,19 @@ Section OpenSSHHandler.
     destruct (256 <=? Z.of_nat k) eqn:E; [apply Z.leb_le in E; lia|]. reflexivity.
   Qed.
 
+  (* which trailing paddings the importer accepts: exactly 1,2,..,k for every k below 256 (OpenSSH pads
+     0..7 bytes, cryptography 1..8, other writers to larger blocks) *)
+  Lemma private_section_padding_accepted encrypted check p comment k :
+    length check = 4%nat -> zlen comment < 2 ^ 32 -> (k < 256)%nat ->
+    section_ encrypted (check ++ check ++ enc_priv p ++ sshstring comment ++ count_from 1 k) = OOk (p, comment).
+  Proof.
+    intros Hc Hcm Hk. unfold section_, openssh_private_section.
+    rewrite get_u32_bytes by exact Hc. rewrite get_u32_bytes by exact Hc.
+    rewrite Z.eqb_refl. cbn [negb]. rewrite dec_enc_priv. rewrite get_string_sshstring by exact Hcm.
+    rewrite count_from_length, zlist_eqb_refl. unfold zlen. rewrite count_from_length.
+    destruct (256 <=? Z.of_nat k) eqn:E; [apply Z.leb_le in E; lia|]. reflexivity.
+  Qed.
+
   (* export then import of an unencrypted container: equal key parameters and the same comment, for
      every comment byte string *)
   Theorem openssh_container_roundtrip check p comment pub :
@@ -830,3 +843,26 @@ Theorem pkcs8_trailing_fields_accepted ver alg prm key extra :
   pkcs8_private_shape (VSeq (ver :: VSeq (alg :: prm) :: VOctets key :: extra)) =
   pkcs8_private_shape (VSeq [ver; VSeq (alg :: prm); VOctets key]).
 Proof. destruct prm as [|p [|q r]]; reflexivity. Qed.
+
+(* ------------------------------------------------------------------------------------------- *)
+(* the private key record (strings, mpints and the security-key flags byte) is read back field by
+   field: this discharges the handler premise of the container theorems for the real layouts *)
+
+Definition field_ok (f : field) : Prop := match f with FStr b => zlen b < 2 ^ 32 | FByte _ => True end.
+
+Lemma get_fields_enc fs : Forall field_ok fs -> forall rest,
+  get_fields (map field_is_str fs) (concat (map enc_field fs) ++ rest) = Some (fs, rest).
+Proof.
+  induction 1 as [|f fs Hf Hfs IH]; intros rest; [reflexivity|].
+  destruct f as [b|x]; cbn [map field_is_str get_fields concat enc_field].
+  - rewrite <- app_assoc. rewrite get_string_sshstring by exact Hf. rewrite IH. reflexivity.
+  - cbn [app]. rewrite IH. reflexivity.
+Qed.
+
+Theorem record_roundtrip layout_of (r : krecord) rest :
+  layout_of (fst r) = Some (map field_is_str (snd r)) -> zlen (fst r) < 2 ^ 32 -> Forall field_ok (snd r) ->
+  dec_record layout_of (enc_record r ++ rest) = Some (r, rest).
+Proof.
+  destruct r as [alg fs]. cbn [fst snd]. intros Hl Ha Hf. unfold dec_record, enc_record. cbn [fst snd].
+  rewrite <- app_assoc. rewrite get_string_sshstring by exact Ha. rewrite Hl, get_fields_enc by exact Hf. reflexivity.
+Qed.
